@@ -45,4 +45,20 @@ PROPS = {
         "assumptions": ["flyio.Access.Now() is replaced by a harness clock (embedding *flyio.Access and overriding Now) so window boundaries are exact",
                         "MemberFeatures is regenerated from the source into Generated/Facts.v on every run; member_features_pinned re-checks it against the documented table"],
     },
+    "C09": {
+        "obligation_files": ["Properties/C09.v"],
+        "model_files": LAYER_A_MODEL,
+        "rule": "stream resset: exhaustive over entry subsets (<=2 entries quick, <=3 thorough) of the id universe {\"\", a, ab, b} x masks x request ids {absent, zero, listed, unlisted, prefix-extended} x action masks, "
+                "for string, prefix and integer resource sets; CAction exhaustively over the mask/action universes; random IfPresent nested to depth 3 and random sets with an implementation-side monotonicity oracle "
+                "(a permitted action's random subset must be permitted); repeated evaluation of one map-backed set (iteration order); non-trivial = the request reaches the set's rule; distinct = distinct Coq case term",
+        "assumptions": ["Go map iteration order is arbitrary: rs_perm_invariant proves the verdict does not depend on it; the harness emits entries sorted"],
+    },
+    "C17": {
+        "obligation_files": ["Properties/C17.v"],
+        "model_files": LAYER_A_MODEL + ["Model/Scope.v"],
+        "rule": "stream scope: random caveat sets mixing Organization/Apps/Clusters/FeatureSet/IfPresent(nested <=2)/ValidityWindow/Action/IsUser/FlyioUserID (0-5 caveats, wildcard and conflicting ids, any masks); "
+                "OrganizationScope, AppScope, ClusterScope, AppsAllowing (5 actions), Expiration, DangerousUserID compared with the model; implementation-side brute-force oracle over the id universe "
+                "(listed ids clear, left-out ids do not, unrestricted only if all clear, nothing clears after the expiry); non-trivial = the set contains a caveat of the kind the helper reads",
+        "assumptions": ["the helpers read time.Now() through flyio.Access: generated validity windows stay >= 1 h away from the wall clock; the model takes the clock as an input"],
+    },
 }
